@@ -755,6 +755,13 @@ func (e *Evaluator) createSpeculativeObjects(specObj *Cell) (*Cell, error) {
 	// create parents.
 	parent := specObj.Value.ParentObj
 
+	// the missing parent may have been created since this path was evaluated:
+	// the right hand side of `a.x.p = a.x.q = 1` creates a.x, which must be
+	// used, not replaced
+	if existing := resolveSpeculative(parent); existing != nil {
+		parent = existing
+	}
+
 	if parent.Tag == ValueNil && parent.ParentObj == nil {
 		return nil, fmt.Errorf("could not create this object")
 	}
@@ -795,6 +802,34 @@ func (e *Evaluator) createSpeculativeObjects(specObj *Cell) (*Cell, error) {
 	}
 
 	return cell, nil
+}
+
+// resolveSpeculative returns the container that now stands where the
+// speculative value v was looked up, or nil if there is (still) none.
+func resolveSpeculative(v *Value) *Value {
+	if v.Tag != ValueNil {
+		return v
+	}
+	if v.ParentObj == nil {
+		return nil
+	}
+	parent := resolveSpeculative(v.ParentObj)
+	if parent == nil {
+		return nil
+	}
+	var cell *Cell
+	switch {
+	case parent.Tag == ValueObj && v.Str != nil:
+		cell = (*parent.Obj)[*v.Str]
+	case parent.Tag == ValueArray && v.Num != nil:
+		if i := int(*v.Num); i >= 0 && i < len(parent.Array) {
+			cell = parent.Array[i]
+		}
+	}
+	if cell == nil || (cell.Value.Tag != ValueObj && cell.Value.Tag != ValueArray) {
+		return nil
+	}
+	return &cell.Value
 }
 
 func (e *Evaluator) evalAssignment(expr Expr, left *Cell, right *Cell) (*Cell, error) {
